@@ -3,12 +3,14 @@ package wrap
 import (
 	"context"
 	"fmt"
+	"io"
 	"reflect"
 
 	"google.golang.org/grpc"
 	"google.golang.org/grpc/codes"
 	"google.golang.org/grpc/metadata"
 	"google.golang.org/grpc/status"
+	"google.golang.org/protobuf/proto"
 )
 
 var ErrMethodNotFound = status.Error(codes.Unimplemented, "method not found")
@@ -113,6 +115,9 @@ func (w *wrapper) NewStream(ctx context.Context, desc *grpc.StreamDesc, method s
 		clientServerStream.Close(endOfCall(ctx, err))
 	}()
 
+	if !desc.ServerStreams {
+		cs = &singleResponseClientStream{cs}
+	}
 	return cs, nil
 }
 
@@ -214,5 +219,27 @@ func adaptUnaryToStream(desc grpc.MethodDesc) grpc.StreamDesc {
 			}
 			return stream.SendMsg(res)
 		},
+	}
+}
+
+// singleResponseClientStream is the client side of a call without server streaming.
+// Like over a real connection RecvMsg only returns the response once the handler has returned:
+// an error status of the handler wins over the response and the trailer is complete.
+type singleResponseClientStream struct {
+	grpc.ClientStream
+}
+
+func (c *singleResponseClientStream) RecvMsg(m any) error {
+	if err := c.ClientStream.RecvMsg(m); err != nil {
+		return err
+	}
+	extra := m.(proto.Message).ProtoReflect().New().Interface()
+	switch err := c.ClientStream.RecvMsg(extra); err {
+	case io.EOF:
+		return nil
+	case nil:
+		return status.Error(codes.Internal, "cardinality violation: expected <EOF> for non server-streaming RPCs, but received another message")
+	default:
+		return err
 	}
 }
